@@ -170,7 +170,7 @@ DocWF(doc) ==
      /\ \A h \in hnames : /\ Cardinality(inc(h)) = 2                               \* a virtual node has exactly two edges
                           /\ \A i \in inc(h) : ~(E[i].src \in hnames /\ E[i].tgt \in hnames)
      /\ \A i \in 1..Len(N) : N[i].type \in {"Z", "X", "hadamard"}
-     /\ \A k \in 1..Len(W) : W[k].boundary /\ (W[k].input # JNone \/ W[k].output # JNone)
+     /\ \A k \in 1..Len(W) : W[k].input # JNone \/ W[k].output # JNone
      /\ perm(idx(LAMBDA w : w.input)) /\ perm(idx(LAMBDA w : w.output))          \* indices are 0..n-1, once each
 \* no two edges (plain or virtual) join the same pair: decoding fuses nothing
 DocSimple(doc) ==
@@ -184,8 +184,10 @@ DocSimple(doc) ==
   IN /\ \A x, y \in plainI : x # y => pp[x] # pp[y]
      /\ \A x, y \in hnames : x # y => hp[x] # hp[y]
      /\ \A x \in plainI : \A y \in hnames : pp[x] # hp[y]
-\* a document as an encoder in scope writes it
-DocPlain(doc) == \A i \in 1..Len(doc.undir_edges) : doc.undir_edges[i].type = "simple"
+\* a document as the encoder in scope writes it: plain edges only, wires flagged as boundary (an
+\* annotation for other tools; to_graph does not read it)
+DocPlain(doc) == /\ \A i \in 1..Len(doc.undir_edges) : doc.undir_edges[i].type = "simple"
+                 /\ \A k \in 1..Len(doc.wire_vertices) : doc.wire_vertices[k].boundary
 
 \* ---------- isomorphism anchored on inputs and outputs ----------
 \* the anchored isomorphisms g -> h: bijections of the vertex sets that map ins to ins and outs to
